@@ -246,7 +246,7 @@ ADDENDA = {
         'leaves the rest (framing_recv_translated), raises on a CR not followed by LF, raises ConnectionError at end of stream, blocks (never spins) '
         'on an open empty stream; any list of CR-free messages is received intact and in order (framing_stream_translated); on ASCII text the outcomes '
         'are those of the byte-level model (framing_recv_model). Assumed: UTF-8 encode/decode are inverse (the translated socket carries characters).',
- 'C09': THREADS_COMMON + 'Translated/ThreadsSeatA.lean, ThreadsSeatB.lean and ThreadsSeatC.lean (the whole SeatThread.run: seat_run_translated = admission + seatReactive; refused and not-ready paths): the translated seat thread — _check_message, _deal, '
+ 'C09': THREADS_COMMON + 'Translated/ThreadsSeatA.lean, ThreadsSeatB.lean and ThreadsSeatC.lean (the whole SeatThread.run: seat_run_translated = admission + seatReactive; refused and not-ready paths) and ThreadsSeatD.lean (the CAPSTONE translated_seat_thread_is_session_program: for every playable scenario the translated seat thread consumes its two streams completely and performs exactly the operations of sessionProg sc (.seat p), with no check hypothesis left — the session's ready texts pass the translated check by kernel evaluation of the finite families and induction over the session): the translated seat thread — _check_message, _deal, '
         '_bidding_phase (while-loop, every queue length), _playing_phase (13 x 4 loop), _connect — performs exactly the operations of the reactive model '
         '(seatDealR, seatBiddingR, seatPlayingR) which C09.seat_thread_follows_its_queue identifies with the session program; hypotheses: the '
         'client\'s "ready" messages pass the server\'s own check (stated with the same regular-expression engine the translated code calls).',
@@ -255,7 +255,7 @@ ADDENDA = {
         'PlayingPhaseWithHands through the Translated/Play theorems; the time.sleep of every trick recorded) perform exactly the operations of the '
         'reactive model (mainDealR, mainBiddingR, mainPlayingR) which C08.main_thread_follows_the_messages identifies with the session program and '
         'the logged record; hypotheses: what the translated parse_bid / parse_card return on the texts received is what the model\'s parsers return.',
- 'C11': THREADS_COMMON + 'Translated/ThreadsClientA.lean and ThreadsClientB.lean (playing_phase with the client\'s own ObservedPlayingPhase replica = clientPlayingR): the translated bundled Client — _connect, _deal, bidding_phase with its own '
+ 'C11': THREADS_COMMON + 'Translated/ThreadsClientA.lean and ThreadsClientB.lean (playing_phase with the client\'s own ObservedPlayingPhase replica = clientPlayingR) and ThreadsClientC.lean (the whole ClientThread.run = connection prefix + clientReactive): the translated bundled Client — _connect, _deal, bidding_phase with its own '
         'BiddingPhase replica — performs exactly the operations of the reactive client model (clientDealR, clientBiddingR), returns the contract the '
         'replica holds, raises when the replica refuses a relayed call; create_bid_message proved for all 38 calls x 4 seats by kernel evaluation.',
  'C20': THREADS_COMMON + 'Translated/ThreadsSeatB.lean: the translated PlayerThread._connect on EVERY seat table and request — the three tests in the code\'s order are '
